@@ -410,6 +410,14 @@ func genFor(prop, part string, seed uint64) *Scenario {
 	case "C15":
 		return genC15(seed, part)
 	case "C04", "C18":
+		if part == "late" {
+			// pop-mode programs with bars queued after a bar that has already
+			// finished / popped out, and bars finishing afterwards which have to
+			// rise above them (C06's generator; here judged by the tape oracle)
+			sc := genC06(seed, "pop")
+			sc.Fam = prop + "/late"
+			return sc
+		}
 		return genC04(seed, part, prop)
 	case "C01":
 		pf.narrowP, pf.emptyMsgP, pf.builtinP, pf.nilOut = 15, 30, 30, true
